@@ -76,7 +76,8 @@ KERNELS = [
 ]
 
 ERRS = {'LagtimeError': 'Err.lagtime', 'ValueError': 'Err.value', 'TypeError': 'Err.type', 'IndexError': 'Err.index',
-        'NotImplementedError': 'Err.notImplemented', 'AssertionError': 'Err.assertion', 'FileError': 'Err.file'}
+        'NotImplementedError': 'Err.notImplemented', 'AssertionError': 'Err.assertion', 'FileError': 'Err.file',
+        'AssumptionViolated': 'Err.other'}      # raised by the guards the array dialect inserts for the `assume` table of a specialisation
 
 
 # --------------------------------------------------------------------------- types
